@@ -369,8 +369,10 @@ func (m *Muxer) writeRecordPlaylist() {
 	// 找出整个直播流从开始到结束最大的分片时长
 	currFrag := m.getClosedFrag()
 	if currFrag.duration > m.recordMaxFragDuration {
-		m.recordMaxFragDuration = currFrag.duration + 0.5
+		m.recordMaxFragDuration = currFrag.duration
 	}
+	// EXT-X-TARGETDURATION: 最大的分片时长，四舍五入到整数秒
+	recordTargetDuration := int(m.recordMaxFragDuration + 0.5)
 
 	fragLines := fmt.Sprintf("#EXTINF:%.3f,\n%s\n", currFrag.duration, currFrag.filename)
 
@@ -379,7 +381,7 @@ func (m *Muxer) writeRecordPlaylist() {
 		// m3u8文件已经存在
 
 		content = bytes.TrimSuffix(content, []byte("#EXT-X-ENDLIST\n"))
-		content, err = updateTargetDurationInM3u8(content, int(m.recordMaxFragDuration))
+		content, err = updateTargetDurationInM3u8(content, recordTargetDuration)
 		if err != nil {
 			Log.Errorf("[%s] update target duration failed. err=%+v", m.UniqueKey, err)
 			return
@@ -396,7 +398,7 @@ func (m *Muxer) writeRecordPlaylist() {
 		var buf bytes.Buffer
 		buf.WriteString("#EXTM3U\n")
 		buf.WriteString("#EXT-X-VERSION:3\n")
-		buf.WriteString(fmt.Sprintf("#EXT-X-TARGETDURATION:%d\n", int(m.recordMaxFragDuration)))
+		buf.WriteString(fmt.Sprintf("#EXT-X-TARGETDURATION:%d\n", recordTargetDuration))
 		buf.WriteString(fmt.Sprintf("#EXT-X-MEDIA-SEQUENCE:%d\n\n", 0))
 
 		if currFrag.discont {
@@ -419,16 +421,18 @@ func (m *Muxer) writePlaylist(isLast bool) {
 	maxFrag := float64(m.config.FragmentDurationMs) / 1000
 	m.iterateFragsInPlaylist(func(frag *fragmentInfo) {
 		if frag.duration > maxFrag {
-			maxFrag = frag.duration + 0.5
+			maxFrag = frag.duration
 		}
 	})
+	// EXT-X-TARGETDURATION: 最大的分片时长，四舍五入到整数秒
+	targetDuration := int(maxFrag + 0.5)
 
 	// TODO chef 优化这块buffer的构造
 	var buf bytes.Buffer
 	buf.WriteString("#EXTM3U\n")
 	buf.WriteString("#EXT-X-VERSION:3\n")
 	buf.WriteString("#EXT-X-ALLOW-CACHE:NO\n")
-	buf.WriteString(fmt.Sprintf("#EXT-X-TARGETDURATION:%d\n", int(maxFrag)))
+	buf.WriteString(fmt.Sprintf("#EXT-X-TARGETDURATION:%d\n", targetDuration))
 	buf.WriteString(fmt.Sprintf("#EXT-X-MEDIA-SEQUENCE:%d\n\n", m.extXMediaSeq()))
 
 	m.iterateFragsInPlaylist(func(frag *fragmentInfo) {
